@@ -42,7 +42,7 @@ class C01Machine(Machine):
     PROP = PROP
     EXPECTED_PROBES = [
         "nested_match", "synonym_nested_in_other_record", "empty_uri_prefix_registered",
-        "probe_equals_prefix", "probe_one_short", "split_delivery", "dup_rejected",
+        "probe_equals_prefix", "probe_one_short", "split_delivery", "dup_rejected", "clash_rejected",
         "confluence_group", "chain_parts", "multi_char_delimiter", "non_bmp_probe_matched",
         "piece_carrier_canonical", "piece_carrier_synonym", "piece_carrier_via_uri",
         "bulk_via_ctor", "bulk_via_epm", "bulk_via_priority", "bulk_via_reverse", "large_owner_map", "derived_view_sub", "derived_view_chain_self", "derived_view_rewire", "derived_view_remap_uri",
@@ -160,6 +160,17 @@ class C01Machine(Machine):
             if rng.random() < cfg["p_dup"]:
                 later.append({"op": "dup", "record": r, "schedule": k,
                               "via": "add_prefix" if rng.random() < 0.5 else "add_record"})
+            if rng.random() < cfg["p_dup"]:
+                # a submission that must be rejected although most of it is new: fresh CURIE prefix, fresh
+                # URI prefixes FIRST, and one URI prefix that record r already owns LAST - nothing of the
+                # fresh part may become a registered URI prefix
+                used_u = {u for x in recs for u in [x["uri_prefix"], *x["uri_prefix_synonyms"]]}
+                free_u = [u for u in cfg["uri_pool"] if u not in used_u][:2] or ["zq:" + str(len(later)) + "/"]
+                clash_rec = {"prefix": "zq" + str(len(later)), "uri_prefix": free_u[0], "prefix_synonyms": [],
+                             "uri_prefix_synonyms": free_u[1:] + [rng.choice([r["uri_prefix"], *r["uri_prefix_synonyms"]])],
+                             "pattern": None}
+                later.append({"op": "clash", "record": clash_rec, "anchor": r["prefix"], "schedule": k,
+                              "via": "add_prefix" if rng.random() < 0.5 else "add_record"})
         tail = []
         if rng.random() < 0.3:
             allp = [r["prefix"] for r in recs] + [x for r in recs for x in r["prefix_synonyms"]]
@@ -181,7 +192,7 @@ class C01Machine(Machine):
             tail.append({"op": "derived_view", "kind": kind2, "mapping": mapping, "schedule": k})
         # interleave the later pieces at seeded positions after their head
         for piece in later:
-            key = piece["prefix"] if "prefix" in piece else piece["record"]["prefix"]
+            key = piece["prefix"] if "prefix" in piece else piece.get("anchor", piece["record"]["prefix"])
             head_pos = max(
                 (i for i, s in enumerate(steps)
                  if s.get("record", {}).get("prefix") == key
@@ -368,7 +379,7 @@ class C01Machine(Machine):
             conv = self.conv
             # query - add - query: the strings this delivery is about are the last lookups before the
             # call and the first lookups after it
-            if kind in ("add_record", "add_prefix", "dup"):
+            if kind in ("add_record", "add_prefix", "dup", "clash"):
                 new_uris = [op["record"]["uri_prefix"], *op["record"]["uri_prefix_synonyms"]]
             elif kind == "merge_piece":
                 new_uris = [op["uri_prefix"]]
@@ -416,10 +427,13 @@ class C01Machine(Machine):
                 self.probe("split_delivery")
                 self.event("merge_piece")
                 self.saw_incremental = True
-            elif kind == "dup":
+            elif kind in ("dup", "clash"):
                 r = op["record"]
-                site = "Converter." + op["via"] + "(dup)"
-                delivered = any(v == r["prefix"] for v in self.owners.owners.values())
+                site = "Converter." + op["via"] + "(" + kind + ")"
+                if kind == "clash":
+                    delivered = r["uri_prefix_synonyms"][-1] in self.owners.owners
+                else:
+                    delivered = any(v == r["prefix"] for v in self.owners.owners.values())
                 if not delivered:
                     self.event("dup_skipped")
                     return {"skipped": True}
@@ -432,8 +446,8 @@ class C01Machine(Machine):
                         conv.add_prefix(r["prefix"], r["uri_prefix"], prefix_synonyms=list(r["prefix_synonyms"]),
                                         uri_prefix_synonyms=list(r["uri_prefix_synonyms"]))
                 except ValueError:
-                    self.fault("duplicate_submission_rejected")
-                    self.probe("dup_rejected")
+                    self.fault("duplicate_submission_rejected" if kind == "dup" else "partly_new_submission_rejected")
+                    self.probe("dup_rejected" if kind == "dup" else "clash_rejected")
                     rejected = True
                 else:
                     # accepted although it matches an existing record: that is C05's business;
